@@ -33,10 +33,13 @@ BestCost(S) == Min({ S[i].c[1] : i \in DOMAIN S })
 Dominated(pop, x) == { i \in DOMAIN pop : ParetoCmp(x, pop[i]) = 1 }
 IsDominated(pop, x) == \E i \in DOMAIN pop : ParetoCmp(x, pop[i]) = 2
 RemoveAt(s, i) == [ j \in 1..(Len(s) - 1) |-> IF j < i THEN s[j] ELSE s[j + 1] ]
+\* the property does not say WHERE in the working population the offspring is put: outcomes are compared as bags
+CountIn(s, v) == Cardinality({ j \in DOMAIN s : s[j] = v })
+SameBag(a, b) == Len(a) = Len(b) /\ \A j \in DOMAIN a : CountIn(a, a[j]) = CountIn(b, a[j])
 PopAcceptOK(pop, x, after) ==
     /\ Len(after) = Len(pop)                                                                        \* the population keeps its size
     /\ IF Dominated(pop, x) # {}
-       THEN \E i \in Dominated(pop, x) : after = Append(RemoveAt(pop, i), x)                        \* replaces one of the members it dominates
-       ELSE IF IsDominated(pop, x) THEN after = pop                                                 \* dominated, dominates nobody: rejected
-       ELSE \E i \in DOMAIN pop : after = Append(RemoveAt(pop, i), x)                               \* otherwise replaces one arbitrary member
+       THEN \E i \in Dominated(pop, x) : SameBag(after, Append(RemoveAt(pop, i), x))               \* replaces one of the members it dominates
+       ELSE IF IsDominated(pop, x) THEN SameBag(after, pop)                                         \* dominated, dominates nobody: rejected
+       ELSE \E i \in DOMAIN pop : SameBag(after, Append(RemoveAt(pop, i), x))                      \* otherwise replaces one arbitrary member
 =============================================================================
